@@ -15,11 +15,11 @@ for p in props:
     s = REG.CHECKS[p]
     checks.append(dict(property_id=p, quick_cmd="./check %s --tier quick" % p, thorough_cmd="./check %s --tier thorough" % p,
                        evidence_file="evidence/%s.json" % p, replay_cmd_template="./check --replay {path}",
-                       engine=",".join(sorted(set(t["engine"] for t in s["tasks"]("quick")))),
+                       engine=",".join(sorted(set(t["engine"] for t in (s["setup_tasks"]() if s.get("setup_tasks") else s["tasks"]("quick"))))),
                        level_claimed=dict(category=s["level"], text=s.get("level_text", REG.DEFAULT_LEVEL_TEXT), design_ref=s.get("design_ref", "DESIGN.md section 3 (%s)" % p)),
                        level_note="; ".join(s["assumptions"]), technique=s.get("technique", "runtime monitoring: differential oracle over seeded executions of the built library")))
 na = [dict(property_id=p, reason=REG.NOT_APPLICABLE.get(p, "no check registered yet")) for p in props if p not in REG.CHECKS]
-engines = [dict(name=n, path=e["src"][0], serves_properties=sorted(p for p, s in REG.CHECKS.items() if any(t["engine"] == n for t in s["tasks"]("quick"))),
+engines = [dict(name=n, path=e["src"][0], serves_properties=sorted(p for p, s in REG.CHECKS.items() if any(t["engine"] == n for t in (s["setup_tasks"]() if s.get("setup_tasks") else s["tasks"]("quick")))),
                 kind_free_text=e.get("kind", "C harness linked against the library built from /repo's working tree")) for n, e in REG.ENGINES.items()]
 m = dict(version=1, setup_cmd="./check --setup", hooks=hooks, engines=engines, checks=checks,
          notes="All checks are runtime monitors over executions of the library built from /repo's current working tree; see DESIGN.md. Known findings: KNOWN_FINDINGS.txt.",
